@@ -7,6 +7,7 @@ import (
 	"fmt"
 	"go/constant"
 	"go/token"
+	"go/types"
 	"strings"
 
 	"golang.org/x/tools/go/ssa"
@@ -223,4 +224,329 @@ func flowsFrom(v ssa.Value, root ssa.Value, d int) bool {
 		}
 	}
 	return false
+}
+
+// ---------- 11: the chunked reader gives up only when the buffer is full ----------
+
+// linEnv evaluates integer SSA expressions over the abstract quantities of a chunked read loop: r = bytes of room
+// left (len of the re-sliced buffer), t = bytes read so far, L = len of the original buffer, with t + r = L.
+type linEnv struct {
+	roomPhi *ssa.Phi  // the buffer that is re-sliced each round (nil if the loop advances an offset only)
+	cntPhi  *ssa.Phi  // the running count (nil if the loop re-slices only)
+	orig    ssa.Value // the original buffer
+	t, r, l int64
+}
+
+func (e *linEnv) eval(v ssa.Value) (int64, bool) {
+	v = stripConv(v)
+	if c, ok := constInt(v); ok {
+		return c, true
+	}
+	switch x := v.(type) {
+	case *ssa.Phi:
+		if x == e.cntPhi {
+			return e.t, true
+		}
+	case *ssa.Call:
+		if bi, ok := x.Call.Value.(*ssa.Builtin); ok && bi.Name() == "len" && len(x.Call.Args) == 1 {
+			a := x.Call.Args[0]
+			if ph, ok := a.(*ssa.Phi); ok && ph == e.roomPhi {
+				return e.r, true
+			}
+			if a == e.orig {
+				return e.l, true
+			}
+		}
+	case *ssa.BinOp:
+		a, ok1 := e.eval(x.X)
+		b, ok2 := e.eval(x.Y)
+		if !ok1 || !ok2 {
+			return 0, false
+		}
+		switch x.Op {
+		case token.ADD:
+			return a + b, true
+		case token.SUB:
+			return a - b, true
+		case token.MUL:
+			return a * b, true
+		}
+	}
+	return 0, false
+}
+
+func (e *linEnv) cond(v ssa.Value) (bool, bool) {
+	switch x := v.(type) {
+	case *ssa.UnOp:
+		if x.Op == token.NOT {
+			b, ok := e.cond(x.X)
+			return !b, ok
+		}
+	case *ssa.BinOp:
+		a, ok1 := e.eval(x.X)
+		b, ok2 := e.eval(x.Y)
+		if !ok1 || !ok2 {
+			return false, false
+		}
+		switch x.Op {
+		case token.LSS:
+			return a < b, true
+		case token.LEQ:
+			return a <= b, true
+		case token.GTR:
+			return a > b, true
+		case token.GEQ:
+			return a >= b, true
+		case token.EQL:
+			return a == b, true
+		case token.NEQ:
+			return a != b, true
+		}
+	}
+	return false, false
+}
+
+// checkChunkedReader: in the function that reads tracee memory chunk by chunk into a caller-supplied buffer, the loop
+// is left through its header exactly when no room is left. (The other exits — error, zero-length read, terminator
+// found — are the reader's documented stops and are decided by rule 7.)
+func checkChunkedReader(c *Check) {
+	p := c.P
+	const rule = "11/reader-fills-buffer"
+	gs := p.Func("ptracer", "Context.GetString")
+	if gs == nil {
+		c.Undecided(rule, "ptracer.Context.GetString", "-", "function not found")
+		return
+	}
+	// the chunk loop: a same-package callee of GetString (depth ≤2) with a loop whose body calls the vm reader
+	var loopFn *ssa.Function
+	var header *ssa.BasicBlock
+	seen := map[*ssa.Function]bool{}
+	var visit func(fn *ssa.Function, d int)
+	visit = func(fn *ssa.Function, d int) {
+		if fn == nil || seen[fn] || d > 2 || len(fn.Blocks) == 0 || fn.Pkg != gs.Pkg {
+			return
+		}
+		seen[fn] = true
+		if loopFn == nil {
+			for _, b := range fn.Blocks {
+				if !isLoopHeader(b) || blockIf(b) == nil {
+					continue
+				}
+				// a slice-typed parameter is (re-)sliced and a call is made in the loop
+				hasSliceParam := false
+				for _, pr := range fn.Params {
+					if _, ok := pr.Type().Underlying().(*types.Slice); ok {
+						hasSliceParam = true
+					}
+				}
+				if !hasSliceParam {
+					continue
+				}
+				for _, ph := range b.Instrs {
+					if _, ok := ph.(*ssa.Phi); ok {
+						loopFn, header = fn, b
+					}
+				}
+			}
+		}
+		for _, ci := range callInstrs(fn) {
+			_, callee := calleeOf(ci)
+			visit(callee, d+1)
+		}
+	}
+	visit(gs, 0)
+	if loopFn == nil {
+		c.Undecided(rule, "ptracer.GetString:chunk-loop", p.Pos(gs.Pos()), "the chunked read loop was not found")
+		return
+	}
+	key := shortName(loopFn) + ":loop-exit"
+	pos := p.Pos(blockIf(header).Pos())
+	if pos == "-" || pos == "" {
+		pos = p.Pos(loopFn.Pos())
+	}
+	env := &linEnv{}
+	for _, pr := range loopFn.Params {
+		if _, ok := pr.Type().Underlying().(*types.Slice); ok {
+			env.orig = pr
+		}
+	}
+	// φ-nodes of the header: room (slice, re-sliced from itself with a low bound) and count (int, += step)
+	var roomStep, cntStep ssa.Value
+	for _, in := range header.Instrs {
+		ph, ok := in.(*ssa.Phi)
+		if !ok {
+			continue
+		}
+		if _, isSl := ph.Type().Underlying().(*types.Slice); isSl {
+			okShape := true
+			var step ssa.Value
+			for _, e := range ph.Edges {
+				if e == env.orig {
+					continue
+				}
+				if sl, ok := e.(*ssa.Slice); ok && sl.X == ph && sl.Low != nil && sl.High == nil {
+					step = sl.Low
+					continue
+				}
+				okShape = false
+			}
+			if okShape && step != nil {
+				env.roomPhi, roomStep = ph, step
+			}
+		} else if bt, isB := ph.Type().Underlying().(*types.Basic); isB && bt.Info()&types.IsInteger != 0 {
+			okShape := true
+			var step ssa.Value
+			for _, e := range ph.Edges {
+				if v, ok := constInt(e); ok && v == 0 {
+					continue
+				}
+				if bo, ok := e.(*ssa.BinOp); ok && bo.Op == token.ADD && (bo.X == ph || bo.Y == ph) {
+					if bo.X == ph {
+						step = bo.Y
+					} else {
+						step = bo.X
+					}
+					continue
+				}
+				okShape = false
+			}
+			if okShape && step != nil && env.cntPhi == nil {
+				env.cntPhi, cntStep = ph, step
+			}
+		}
+	}
+	if env.roomPhi == nil && env.cntPhi == nil {
+		c.Undecided(rule, key, pos, "neither a re-sliced buffer nor a running count was recognised in the loop")
+		return
+	}
+	if env.roomPhi != nil && env.cntPhi != nil && stripConv(roomStep) != stripConv(cntStep) {
+		// the two do not advance together: the count is not "bytes read so far"; evaluate on the room alone
+		env.cntPhi = nil
+	}
+	iff := blockIf(header)
+	// successor 0 continues the loop if it is inside the loop (reaches the header again), otherwise successor 1 does
+	contOnTrue := anyReach(header.Succs[0], header)
+	bad := ""
+	decided := true
+	for l := int64(0); l <= 6 && decided; l++ {
+		for t := int64(0); t <= l; t++ {
+			env.l, env.t, env.r = l, t, l-t
+			v, ok := env.cond(iff.Cond)
+			if !ok {
+				decided = false
+				break
+			}
+			cont := v == contOnTrue
+			if cont != (env.r > 0) && bad == "" {
+				bad = fmt.Sprintf("with a buffer of %d bytes and %d read so far (room %d) the loop %s", l, t, env.r, map[bool]string{true: "continues with no room", false: "stops although room is left"}[cont])
+			}
+		}
+	}
+	switch {
+	case !decided:
+		c.Undecided(rule, key, pos, "the loop condition "+describe(iff.Cond)+" is not an expression over the room left, the bytes read and the buffer length")
+	case bad != "":
+		c.Fail(rule, key, pos, "the chunked reader leaves its loop at the wrong fill level: "+bad+" — a name that crosses the chunk boundary reaches the policy truncated")
+	default:
+		c.OK(rule, key, pos, "the loop continues exactly while room is left (all buffer sizes ≤6 × fill levels, invariant read+room=size)")
+	}
+	// each chunk is fetched from (start address + bytes read so far) into the room that is left
+	var rd ssa.CallInstruction
+	for _, b := range loopFn.Blocks {
+		if !anyReach(header, b) || !anyReach(b, header) {
+			continue
+		}
+		for _, in := range b.Instrs {
+			ci, ok := in.(ssa.CallInstruction)
+			if !ok {
+				continue
+			}
+			hasBuf, hasAddr := false, false
+			for _, a := range ci.Common().Args {
+				if sl, ok := a.(*ssa.Slice); ok && (sl.X == env.roomPhi || sl.X == env.orig) {
+					hasBuf = true
+				}
+				if bt, ok := a.Type().Underlying().(*types.Basic); ok && bt.Kind() == types.Uintptr {
+					hasAddr = true
+				}
+			}
+			if hasBuf && hasAddr && rd == nil {
+				rd = ci
+			}
+		}
+	}
+	if rd == nil {
+		c.Undecided(rule, shortName(loopFn)+":chunk-address", pos, "the call that fetches a chunk was not found in the loop")
+	} else {
+		okAddr, why := false, ""
+		for _, a := range rd.Common().Args {
+			bt, ok := a.Type().Underlying().(*types.Basic)
+			if !ok || bt.Kind() != types.Uintptr {
+				continue
+			}
+			why = describe(a)
+			switch x := a.(type) {
+			case *ssa.BinOp:
+				if x.Op == token.ADD {
+					for _, pair := range [][2]ssa.Value{{x.X, x.Y}, {x.Y, x.X}} {
+						if _, isPar := pair[0].(*ssa.Parameter); isPar && env.cntPhi != nil && stripConv(pair[1]) == env.cntPhi {
+							okAddr = true
+						}
+					}
+				}
+			case *ssa.Phi:
+				// an address advanced in step with the buffer
+				if x.Block() == header && roomStep != nil {
+					good := true
+					for _, e := range x.Edges {
+						if _, isPar := e.(*ssa.Parameter); isPar {
+							continue
+						}
+						if bo, ok := e.(*ssa.BinOp); ok && bo.Op == token.ADD && ((bo.X == x && stripConv(bo.Y) == stripConv(roomStep)) || (bo.Y == x && stripConv(bo.X) == stripConv(roomStep))) {
+							continue
+						}
+						good = false
+					}
+					okAddr = good
+				}
+			}
+		}
+		c.Cond(okAddr, rule, shortName(loopFn)+":chunk-address", p.Pos(rd.Pos()), "chunk k is fetched from start + bytes read so far",
+			"every chunk is fetched from "+why+", which does not advance with the bytes already read: a string that crosses a chunk boundary is returned with its head repeated, so the policy judges a name the kernel does not use")
+	}
+	c.Expect(rule, 2)
+}
+
+// ---------- 12: tracee-chosen text is never a format string ----------
+func checkConstFormats(c *Check) {
+	p := c.P
+	const rule = "12/constant-format"
+	n := 0
+	for _, rel := range []string{"runner/ptrace", "ptracer", "runner/ptrace/filehandler"} {
+		for _, fn := range p.PkgFuncs(rel) {
+			for _, f := range withClosures(fn) {
+				for _, ci := range callInstrs(f) {
+					name, callee := calleeOf(ci)
+					if callee == nil || callee.Pkg == nil || callee.Pkg.Pkg.Path() != "fmt" {
+						continue
+					}
+					idx := -1
+					switch callee.Name() {
+					case "Sprintf", "Errorf", "Printf":
+						idx = 0
+					case "Fprintf":
+						idx = 1
+					}
+					if idx < 0 || len(ci.Common().Args) <= idx {
+						continue
+					}
+					n++
+					_, isConst := constString(ci.Common().Args[idx])
+					c.Cond(isConst, rule, fmt.Sprintf("%s:%s#%d", shortName(f), callee.Name(), n), p.Pos(ci.Pos()),
+						"format is a constant", name+" is given the computed format "+describe(ci.Common().Args[idx])+": a '%' in a path, a link target or a name chosen by the traced program is interpreted as a verb and the path the policy sees is no longer the path the kernel uses")
+				}
+			}
+		}
+	}
+	c.Expect(rule, 3)
 }
